@@ -425,6 +425,12 @@ def _recreate():
             if isinstance(st.targets[0], ast.Name):
                 sub.bind(st)
                 continue
+        # fix 0574d89 (finding F33): after the new DAG exists, the skip marks of the descendants of already skipped tasks are
+        # renewed. `skip` marks are outside the feature scope of M7 (see PytaskModel/Provisional.lean header), so the call is
+        # recognised — exactly this callee on exactly `session`, after the new DAG was stored — and emits no step.
+        if isinstance(st, ast.Expr) and _callee(st.value) == "_skip_descendants_of_skipped_tasks" and \
+                [_u(a) for a in st.value.args] == ["session"] and not st.value.keywords and "session.dag" in new_dag_names:
+            continue
         raise _err(f"recreate_dag: unrecognised statement in try {_u(st)[:100]!r}")
     h = tr.handlers[0]
     if h.type is None:
